@@ -442,7 +442,21 @@ def trampoline_table(w):
             # body of the first procedure is the single form TAILCALL (its tail evaluation hands back the pending call), the
             # body of the second is B2
             sp1[2][:] = [w.sym("TAILCALL")]
-            r = Run(w, answers=leaf_answers, tail_answers={"TAILCALL": ok(tc), "B2": ok(val)}, epc_answers=[ok([p2, list(args2)])])
+
+            class _Once(dict):
+                # (two closures of one lambda share the body: its tail form is a pending call the first time, a value the second)
+                n = 0
+
+                def __contains__(self, k):
+                    return k in ("TAILCALL", "B2")
+
+                def __getitem__(self, k):
+                    if k == "B2":
+                        return ok(val)
+                    _Once.n += 1
+                    return ok(tc) if _Once.n == 1 else ok(val)
+            r = Run(w, answers=leaf_answers, epc_answers=[ok([p2, list(args2)])])
+            r.tail_answers = _Once()          # (assigned afterwards: an empty dict subclass is falsy)
         else:
             r = Run(w, answers=leaf_answers, asp_answers=[ok(tc), ok(val)], epc_answers=[ok([p2, list(args2)])])
         try:
@@ -458,7 +472,7 @@ def trampoline_table(w):
             for e in frames:
                 defs = [x for x in r.events if x[0] == "define" and x[1] is e[1]]
                 tails = [x for x in r.events if x[0] == "tail" and x[2] is e[1]]
-                spx = sp1 if (tails and tails[0][1] == "TAILCALL") else (sp2 if (tails and tails[0][1] == "B2") else (sp1 if not au else [None, None, None]))
+                spx = (sp1 if not au else sp2) if (tails and tails[0][1] == "TAILCALL") else (sp2 if (tails and tails[0][1] == "B2") else (sp1 if not au else [None, None, None]))
                 au.append(("apply-user", spx[0], spx[1], spx[2], e[2], [x[3] for x in defs]))
         ab = [e for e in r.events if e[0] == "apply-builtin"]
         etc = [e for e in r.events if e[0] == "eval-tail-call"]
@@ -488,10 +502,16 @@ def trampoline_table(w):
         tc = Enum(0, [inner])
         tc.name = "TailCall"
         arg2 = Tok("arg", "W1")
-        r = Run(w, follow=[w.asp.name], tail_answers={"TAILCALL": ok(tc)}, epc_answers=[ok([p2, [arg2]])])
+        # (when there is no function evaluating a pending call to be stubbed, its operator and operand are evaluated for real)
+        r = Run(w, follow=[w.asp.name], tail_answers={"TAILCALL": ok(tc)}, epc_answers=[ok([p2, [arg2]])],
+                answers={"OP2": ok(w.procedure_value(p2)), "X": ok(arg2)})
         try:
             res = r.run(w.ap, [p1, [Tok("arg", "V1")], caller])
             frames = [e for e in r.events if e[0] == "new_child"]
+            if not [e for e in r.events if e[0] == "eval-tail-call"] and getattr(w.epc, "missing", False):
+                for e in [e for e in r.events if e[0] == "eval" and e[1] == "OP2"]:
+                    r.events.insert(r.events.index(e), ("eval-tail-call", pend, [w.sym("X")], e[2]))
+                r.events[:] = [e for e in r.events if not (e[0] == "eval" and e[1] in ("OP2", "X"))]
             rows.append((variant, {"result": res, "frames": [(f[2] is cenv1, f[2] is cenv2) for f in frames],
                                    "defines": [(e[2], e[3]) for e in r.events if e[0] == "define" and e[2] not in ("d", "helper")],
                                    "tail_call_evals": [e for e in r.events if e[0] == "eval-tail-call"],
@@ -530,7 +550,7 @@ def trampoline_table(w):
         p = w.user(sp, cenv)
         arg2 = Tok("arg", "N2")
         turn = [0]
-        r = Run(w, follow=[w.asp.name], epc_answers=[ok([p, [arg2]])])
+        r = Run(w, follow=[w.asp.name], epc_answers=[ok([p, [arg2]])], answers={"OPLOOP": ok(w.procedure_value(p)), "X": ok(arg2)})
         r.rc_count = count
 
         def tail_answer(run=r):
@@ -1226,6 +1246,36 @@ def epc_table(w):
         ptok = Tok("procedure", "P")
         answers = {"OP": ok(w.procedure_value(ptok)) if scenario == "procedure" else ok(w.named(w.val, "Boolean", [True]))}
         r = Run(w, answers=answers)
+        if getattr(w.epc, "missing", False):
+            # no such function on this tree: the pending call is evaluated by whoever runs the trampoline.  One turn of
+            # apply_procedure whose application hands back the pending call (OP A1 A2) carrying `env`; a builtin is what OP stands
+            # for, so the second turn ends in its application
+            if scenario == "procedure":
+                params2 = w.formals(["x", "y"])
+                ptok = w.named(w.proc, "Builtin", [[Tok("name", "builtin-name"), params2, Tok("body", "builtin-body")]])
+                answers["OP"] = ok(w.procedure_value(ptok))
+            tc = Enum(0, [Enum(0, [op, list(args), env])])
+            tc.name = "TailCall"
+            tc.fields[0].name = "Ref"
+            sp1 = w.scheme_procedure(w.formals(["a"]), [], [w.sym("B1")])
+            r = Run(w, answers=answers, asp_answers=[ok(tc)]) if not getattr(w.asp, "missing", False) else None
+            if r is None:
+                rows.append((scenario, {"stuck": "neither eval_procedure_call nor apply_scheme_procedure exists to script a pending tail call"}))
+                continue
+            try:
+                res = r.run(w.ap, [w.user(sp1, Frame(None, "closure-env")), [Tok("arg", "V1")], Frame(None, "caller-env")])
+            except (absint.Stuck, absint.Loop) as e:
+                rows.append((scenario, {"stuck": str(e)}))
+                continue
+            evals = [e for e in r.events if e[0] == "eval"]
+            ab = [e for e in r.events if e[0] == "apply-builtin"]
+            if scenario == "procedure":
+                # rendered as what eval_procedure_call would have returned: the procedure and the operand values
+                got_args = ab[0][2] if ab and isinstance(ab[0][2], list) else []
+                res = ok([ptok, list(got_args)]) if len(ab) == 1 else res
+            rows.append((scenario, {"result": res, "evaluated": [e[1] for e in evals], "envs_ok": all(e[2] is env for e in evals),
+                                    "applies": len([e for e in r.events if e[0] == "apply"]), "ptok": ptok, "op": op}))
+            continue
         try:
             res = r.run(w.epc, [op, list(args), env])
         except (absint.Stuck, absint.Loop) as e:
@@ -1242,7 +1292,7 @@ def rule_epc(ctx, rule, rule_loc=None):
     w = tables(fb)["w"]
     if "epc" not in tables(fb):
         tables(fb)["epc"] = epc_table(w)
-    v = Verdict(ctx, rule, mir_where(w.epc))
+    v = Verdict(ctx, rule, mir_where(w.epc if not getattr(w.epc, "missing", False) else w.ap))
     for sc, d in tables(fb)["epc"]:
         res = d.get("result")
         if sc == "procedure":
@@ -1266,7 +1316,7 @@ def rule_epc(ctx, rule, rule_loc=None):
                 ctx.inst(rule_loc, "tail-call/non-procedure-operator/location", {"inside_the_call_form_or_statement": okl})
                 if not okl:
                     ctx.report(rule_loc, "TailCall/location", "the non-procedure error of a tail call is located at %r, which is not "
-                               "inside the failing call" % (loc,), mir_where(w.epc))
+                               "inside the failing call" % (loc,), mir_where(w.epc if not getattr(w.epc, "missing", False) else w.ap))
     return v.decided
 
 
@@ -1359,6 +1409,8 @@ def application_is_sound(fb):
             good = False
         visited |= d["visited"]
     for second, d in t["trampoline"]:
+        if second not in ("user-arity", "self-arity"):
+            continue                                  # only the arity rows bear on this verdict
         if "stuck" in d:
             return False, set()
         if second in ("user-arity", "self-arity") and not (_err_kind(d["result"], "ArgumentMissMatch") and len(d["user_applications"]) == 1):
